@@ -1273,6 +1273,33 @@ Proof.
   repeat (split; [assumption|]). exact DecodeTerminatesExamples.ex43_decodes.
 Qed.
 
+(* a slider line of a real map (resources/Within Temptation - The Unforgiving
+   (Armin) [Marathon].osu): one type letter, 59 point pieces, two doubled points
+   (red anchors) that split it into three segments -- 58 control points, 26 in
+   the longest segment, within +-256 of the head.  Outside the number-free input
+   condition (a run of 59 pieces), inside the graded per-segment one with a wide
+   margin (26 * 2^8 against 2^22).  The state-side conditions are booleans
+   computed from the input lines by the PARSER model alone (no curve), so they
+   too are decidable conditions on the input.  (All 2828 slider lines of the 44
+   .osu files under /repo/resources satisfy the graded per-segment condition,
+   the largest product being 58 * 2^10; counted outside Coq,
+   probes/C01_decode_cover.) *)
+Example C01_decode_terminates_example_real_line :
+  DecodeTerminatesSegLines.lines_seg_fit DecodeTerminatesExamples.ex_real_lines = false /\
+  map (fun x => (fst (fst x), snd (fst x)))
+      (DecodeTerminatesExamples.parsed_shape (DecodeTerminates.bm_parsed DecodeTerminatesExamples.ex_real_lines))
+    = [(58%nat, 26%nat)] /\
+  map (DecodeTerminatesSegments.obj_seg_fits 8) (DecodeTerminates.bm_parsed DecodeTerminatesExamples.ex_real_lines) = [true] /\
+  map (DecodeTerminatesSegments.obj_seg_fits 7) (DecodeTerminates.bm_parsed DecodeTerminatesExamples.ex_real_lines) = [false] /\
+  map DecodeTerminatesSegments.obj_seg_fits_some (DecodeTerminates.bm_parsed DecodeTerminatesExamples.ex_real_lines) = [true] /\
+  (forall lm, ThetaLoop.atan2_in_range lm ->
+     (exists hv, decode_hit_objects (dist_of_curve lm) DecodeTerminatesExamples.ex_real_lines = Done hv) /\
+     (exists bv, decode_beatmap (dist_of_curve lm) DecodeTerminatesExamples.ex_real_lines = Done bv)).
+Proof.
+  destruct DecodeTerminatesExamples.ex_real_parsed as (P1 & P2 & _ & P4 & P5 & P6 & _).
+  repeat (split; [assumption|]). exact DecodeTerminatesExamples.ex_real_decodes.
+Qed.
+
 (* the hypothesis on atan2 is satisfiable (and needed: [C01_theta_loop_hostile_atan2]) *)
 Example C01_atan2_in_range_inhabited :
   ThetaLoop.atan2_in_range (Curve.mkLibm (fun x => x) (fun x => x) (fun _ _ => D.zero) (fun x => x)).
